@@ -1,5 +1,166 @@
 import Model
+import Proofs.C13
+
+/-
+  C13 — wrapping, padding, indenting and snipping preserve content and honour the width.
+
+  The Go functions are folds over `expand text` (the regex matches); the theorems below are
+  stated for **every** list of matches, hence for every string, counting visible characters the
+  way the code itself does (one per match).  `Ansi.wrap text w` is by definition
+  `joinNL ((wrapLines (expand text) w).map collapse)`, and likewise for the others.
+  Property theorems only; helper lemmas live in Proofs/C13.lean.
+-/
 
 namespace C13
-theorem placeholder : True := trivial
+open Str Ansi AnsiSpec
+
+/-- The newline match used to re-join lines. -/
+def nlCell : RawCell := ⟨[], '\n', ['\n']⟩
+
+/-- Lines joined by newline matches. -/
+def relines : List (List RawCell) → List RawCell
+  | [] => []
+  | [l] => l
+  | l :: ls => l ++ nlCell :: relines ls
+
+/-- Lines joined by `"\n" ++ pfx`. -/
+def joinNLWith (pfx : Str) : List Str → Str
+  | [] => []
+  | [l] => l
+  | l :: ls => l ++ '\n' :: (pfx ++ joinNLWith pfx ls)
+
+/-- The definitions above coincide with the copies the helper lemmas are stated for. -/
+theorem relines_eq : ∀ L, relines L = WrapP.relinesP L
+  | [] => rfl
+  | [_] => rfl
+  | l :: l' :: ls => by
+    show l ++ nlCell :: relines (l' :: ls) = l ++ WrapP.nlC :: WrapP.relinesP (l' :: ls)
+    rw [relines_eq (l' :: ls)]; rfl
+
+theorem joinNLWith_eq (pfx : Str) : ∀ L, joinNLWith pfx L = LayoutP.joinNLWithP pfx L
+  | [] => rfl
+  | [_] => rfl
+  | l :: l' :: ls => by
+    show l ++ '\n' :: (pfx ++ joinNLWith pfx (l' :: ls)) =
+      l ++ '\n' :: (pfx ++ LayoutP.joinNLWithP pfx (l' :: ls))
+    rw [joinNLWith_eq pfx (l' :: ls)]
+
+/-- The matches tile the string (Layer A fact used by `Snip`). -/
+theorem collapse_expand (s : Str) : collapse (expand s) = s :=
+  Ansi.collapse_expand s
+
+/-! ### Word wrapping -/
+
+/-- Every output line has at most `w` visible characters. -/
+theorem wrap_width (cells : List RawCell) (w : Int) (hw : 1 ≤ w) :
+    ∀ l ∈ wrapLines cells w, (l.length : Int) ≤ w :=
+  WrapP.wrap_width cells w hw
+
+/-- Every non-whitespace character is kept, with its styling, in the original order. -/
+theorem wrap_keeps_visible (cells : List RawCell) (w : Int) (hw : 1 ≤ w) :
+    visible (relines (wrapLines cells w)) = visible cells := by
+  rw [relines_eq]; exact WrapP.wrap_keeps_visible cells w hw
+
+/-- A line break separating two visible characters is never removed: between each pair of
+    consecutive visible characters the output has at least as many breaks as the input. -/
+theorem wrap_keeps_breaks (cells : List RawCell) (w : Int) (hw : 1 ≤ w) :
+    leAll (gaps cells) (gaps (relines (wrapLines cells w))) = true := by
+  rw [relines_eq]; exact WrapP.wrap_keeps_breaks cells w hw
+
+/-- Output lines contain no newline match (so joining them with newlines and splitting again
+    gives them back). -/
+theorem wrap_lines_no_newline (cells : List RawCell) (w : Int) :
+    ∀ l ∈ wrapLines cells w, ∀ m ∈ l, m.letter ≠ '\n' :=
+  WrapP.wrap_lines_no_newline cells w
+
+/-- A word is broken only if it is longer than a line: every maximal run of non-whitespace
+    characters of length ≤ `w` lies contiguously within one output line. -/
+theorem wrap_word_intact (cells : List RawCell) (w : Int) (hw : 1 ≤ w) :
+    ∀ wd ∈ words cells, (wd.length : Int) ≤ w → ∃ l ∈ wrapLines cells w, wd <:+: l :=
+  WrapP.wrap_word_intact cells w hw
+
+/-! ### Hard wrapping -/
+
+/-- State of `DumbWrap` on cells: finished lines and the current line. -/
+def dumbLines (cells : List RawCell) (w : Int) : List (List RawCell) :=
+  let st := cells.foldl (fun (st : List (List RawCell) × List RawCell) m =>
+      if m.letter = '\n' then (st.1 ++ [st.2], [])
+      else if (st.2.length : Int) = w then (st.1 ++ [st.2], [m])
+      else (st.1, st.2 ++ [m])) ([], [])
+  st.1 ++ [st.2]
+
+theorem dumbLines_eq (cells : List RawCell) (w : Int) :
+    dumbLines cells w = LayoutP.dumbLinesP cells w := rfl
+
+/-- `DumbWrap` is the line-level function followed by joining. -/
+theorem dumbWrap_refines (text : Str) (w : Int) :
+    dumbWrap text w = joinNL ((dumbLines (expand text) w).map collapse) := by
+  rw [dumbLines_eq]; exact LayoutP.dumbWrap_refines text w
+
+/-- Hard wrapping keeps every character, in order (only newlines are inserted) … -/
+theorem dumbWrap_keeps_all (cells : List RawCell) (w : Int) :
+    (dumbLines cells w).flatten = cells.filter (fun m => m.letter ≠ '\n') := by
+  rw [dumbLines_eq]; exact LayoutP.dumbWrap_keeps_all cells w
+
+/-- … and every line has at most `w` characters. -/
+theorem dumbWrap_width (cells : List RawCell) (w : Int) (hw : 1 ≤ w) :
+    ∀ l ∈ dumbLines cells w, (l.length : Int) ≤ w := by
+  rw [dumbLines_eq]; exact LayoutP.dumbWrap_width cells w hw
+
+/-! ### Padding and indenting -/
+
+/-- Each padded line is the original line followed by spaces, up to `max len w` characters. -/
+theorem pad_shape (line : List RawCell) (w : Int) :
+    ∃ k : Nat, padLine line w = collapse line ++ rep ' ' k ∧
+      ((line.length + k : Nat) : Int) = max (line.length : Int) w :=
+  LayoutP.pad_shape line w
+
+/-- `Pad` pads line by line. -/
+theorem pad_lines (text : Str) (w : Int) :
+    pad text w = joinNL ((cellLines (expand text)).map (padLine · w)) :=
+  rfl
+
+/-- Indenting keeps every match and inserts the prefix after every newline match (and in front
+    when asked). -/
+theorem indent_shape (text pfx : Str) (first : Bool) :
+    indent text pfx first =
+      (if first then pfx else []) ++
+      joinNLWith pfx ((cellLines (expand text)).map collapse) := by
+  rw [joinNLWith_eq]; exact LayoutP.indent_shape text pfx first
+
+/-! ### Snipping -/
+
+/-- At most `h` lines are returned (for `h ≥ 1`; one possibly empty line for `h = 0`). -/
+theorem snip_height (text : Str) (w h : Int) (e : Str) (hh : 0 ≤ h) (he : '\n' ∉ e) :
+    ∃ out, snip text w h e = .ok out ∧ (height out : Int) ≤ max h 1 :=
+  SnipP.snip_height text w h e hh he
+
+/-- The kept lines are a prefix of the input's lines, the last kept one possibly shortened by
+    one character to make room for the ellipsis. -/
+theorem snip_prefix (text : Str) (w h : Int) (hh : 0 ≤ h) :
+    let lines := splitNL text
+    let r := snipLoop w (lines.take (if (lines.length : Int) ≤ h then lines.length else h.toNat)).reverse
+              (decide ((lines.length : Int) > h))
+    ∃ k, r.1.length = k ∧ k ≤ lines.length ∧
+      (∀ i, i + 1 < k → r.1[i]? = (lines[i]?).map (fun l => collapse (expand l))) ∧
+      (k > 0 → ∃ last, r.1[k - 1]? = some last ∧ ∃ l, lines[k - 1]? = some l ∧
+          (last = collapse (expand l) ∨ last = collapse ((expand l).dropLast))) := by
+  have _ := hh  -- the statement holds for every `h`; `0 ≤ h` is `Snip`'s no-panic precondition
+  exact SnipP.snip_prefix_gen w (splitNL text) _ _ (List.take_append_drop _ _).symm _
+
+/-- If every input line fits the width, every snipped line fits the width, ellipsis included
+    (a one-character ellipsis). -/
+theorem snip_width (lines : List Str) (w : Int) (req : Bool)
+    (hfit : ∀ l ∈ lines, ((expand l).length : Int) ≤ w) :
+    let r := snipLoop w lines req
+    ∀ i l, r.1[i]? = some l → ∃ cs : List RawCell, l = collapse cs ∧
+      ((cs.length : Int) + (if i + 1 = r.1.length ∧ r.2 then 1 else 0) ≤ w ∨ w ≤ 0) :=
+  SnipP.snip_width lines w req hfit
+
+/-! ### Non-vacuity -/
+
+example : (wrapLines (expand "hello wor ld foo".toList) 5).map collapse =
+    ["hello".toList, "wor".toList, "ld".toList, "foo".toList] := by
+  decide +kernel
+
 end C13
